@@ -185,25 +185,40 @@ def parsePairsAux : Nat → List Str → Pairs → Option Pairs
 
 def parsePairs (ws : List Str) : Option Pairs := parsePairsAux (ws.length + 1) ws []
 
+def normAddr (v : Str) : Str := (cutSuffix v (s "/32")).getD v
+
+/-- Lowercase protocol names; numbers for some protocol names. -/
+def normProto (v : Str) : Str :=
+  let v := lower v
+  if v = s "vrrp" then s "112" else if v = s "ipv6-icmp" then s "58" else v
+
+def normPort (v : Str) : Str :=
+  let v := trimLeft0 v
+  match cutSuffix v (s ":65535") with
+  | some b => b ++ [':']
+  | none => v
+
+/-- RELATED,ESTABLISHED -> ESTABLISHED,RELATED -/
+def normState (v : Str) : Str := joinWith [','] (sortStrs (splitChar v ','))
+
+/-- Lower case, default mask ignored, hex to decimal. -/
+def normMark (v : Str) : Str :=
+  let v := lower v
+  let v := (cutSuffix v (s "/0xffffffff")).getD v
+  match parseInt32 v with
+  | some i => intToStr i
+  | none => v
+
+def normLog (v : Str) : Str := if v = s "debug" then s "7" else v
+
 /-- The per-key rewriting in the `for k, v := range pairs` loop. -/
 def normVal (k v : Str) : Str :=
-  if k = s "-s" ∨ k = s "-d" then (cutSuffix v (s "/32")).getD v
-  else if k = s "-p" then
-    let v := lower v
-    if v = s "vrrp" then s "112" else if v = s "ipv6-icmp" then s "58" else v
-  else if k = s "--sport" ∨ k = s "--dport" then
-    let v := trimLeft0 v
-    match cutSuffix v (s ":65535") with
-    | some b => b ++ [':']
-    | none => v
-  else if k = s "--state" then joinWith [','] (sortStrs (splitChar v ','))
-  else if k = s "--set-mark" then
-    let v := lower v
-    let v := (cutSuffix v (s "/0xffffffff")).getD v
-    match parseInt32 v with
-    | some i => intToStr i
-    | none => v
-  else if k = s "--log-level" then (if v = s "debug" then s "7" else v)
+  if k = s "-s" ∨ k = s "-d" then normAddr v
+  else if k = s "-p" then normProto v
+  else if k = s "--sport" ∨ k = s "--dport" then normPort v
+  else if k = s "--state" then normState v
+  else if k = s "--set-mark" then normMark v
+  else if k = s "--log-level" then normLog v
   else v
 
 /-- `normalizeIPTables`. -/
